@@ -188,6 +188,28 @@ def run(ctx):
     reuse_cases = [{"id": rids[(k + m) % len(rids)], "mode": mode, "n": nconn}
                    for m, mode in enumerate(reuse_modes) for k in range(per_mode)]
     cases += reuse_cases
+    # GREASE key shares with a multi-byte body and GREASE entries at non-default positions: custom specs, the same hello
+    # imported back by the fingerprinter and through its JSON description (built-in parrots use a one-byte GREASE share)
+    def json_ok(sp):
+        curves = [c for e in sp["exts"] if e["kind"] == "SupportedCurvesExtension" for c in e["f"]["Curves"]]
+        return not any("EncryptedClientHello" in e["kind"] for e in sp["exts"]) and all(is_g(c) or c in (29, 23, 24, 25) for c in curves)
+    jids = [i for i in rids if json_ok(d["specs"][i])]
+    if not jids:
+        raise vlib.Machinery("C04: no GREASE-key-share parrot that the JSON format can describe")
+    ks_bodies = [2, 7, 32]
+    ks_cases = []
+    nper = 1 if ctx.quick else 4
+    for bi, body in enumerate(ks_bodies):
+        for k in range(nper):
+            ks_cases.append({"id": rids[(bi + k) % len(rids)], "mode": "custom-ks", "n": nconn, "ksbody": body})
+            ks_cases.append({"id": rids[(bi + k + 1) % len(rids)], "mode": "fp-ks", "n": nconn, "ksbody": body})
+            ks_cases.append({"id": jids[(bi + k) % len(jids)], "mode": "json-ks", "n": nconn, "ksbody": body})
+    ks_cases += [{"id": rids[0], "mode": "custom-ks", "n": nconn, "ksbody": 1, "shape": True},
+                 {"id": rids[1 % len(rids)], "mode": "custom-ks", "n": nconn, "ksbody": 7, "shape": True},
+                 {"id": rids[2 % len(rids)], "mode": "fp-ks", "n": nconn, "ksbody": 2, "shape": True},
+                 {"id": jids[0], "mode": "json-ks", "n": nconn, "ksbody": 32, "shape": True},
+                 {"id": rids[0], "mode": "reuse-custom-ks", "n": nconn, "ksbody": 32}]
+    cases += ks_cases
     # Config.Rand variants: io.Reader allows short reads; the GREASE seed must be complete (fresh) with any of them
     rand_variants = ["full", "onebyte", "chunks"]
     rand_ids = [gids[(ctx.seed + 3 * k) % len(gids)] for k in range(2 if ctx.quick else 8)]
@@ -228,6 +250,16 @@ def run(ctx):
         ok = [g for g in groups if g[0]["mode"] == mode and sum(1 for e in g[1:-1] if e["sent"]) == nconn]
         if not ok:
             raise vlib.Machinery("C04 vacuity: no complete group of %d hellos for spec-reuse mode %s" % (nconn, mode))
+    for mode in ("custom-ks", "fp-ks", "json-ks", "reuse-custom-ks"):
+        for body in (ks_bodies if mode != "reuse-custom-ks" else [32]):
+            ok = False
+            for g in groups:
+                if g[0]["mode"] != mode or ("/ksbody=%d" % body) not in g[0]["grp"] or sum(1 for e in g[1:-1] if e["sent"]) != nconn:
+                    continue
+                ks = [k for e in g[0]["spec"]["exts"] if e["kind"] == "KeyShareExtension" for k in e["f"]["KeyShares"]]
+                ok = ok or any(is_g(k["Group"]) and len(k["Data"]) == body for k in ks)
+            if not ok:
+                raise vlib.Machinery("C04 vacuity: no complete group for mode %s whose spec has a GREASE key share of %d bytes" % (mode, body))
     for rv in rand_variants:
         if not [g for g in groups if g[0].get("rand") == rv and sum(1 for e in g[1:-1] if e["sent"]) == nconn]:
             raise vlib.Machinery("C04 vacuity: no complete group of hellos with Config.Rand variant %s" % rv)
@@ -283,7 +315,7 @@ def run(ctx):
     cov = {"evaluations": evals, "distinct_nontrivial": len(boring) * 65536 + len(groups),
            "rule": "evaluations = 65536 seed values x %d indices of GetBoringGREASEValue (exhaustive) + %d draws each of GetGREASEID, GREASETransportParameter.ID, GetGREASEVersion + marshaled transport-parameter lists + wire hellos; distinct = (seed value, index) pairs + connection groups (spec x mode) whose freshness was judged" % (nidx, ndraw),
            "samples": samples, "grease_parrots": len(gids), "connection_groups": len(groups), "connections_per_group": nconn,
-           "config_rand_groups": {rv: sum(1 for c in rand_cases if c["rand"] == rv) for rv in rand_variants}, "isgreaseid_inputs": len(tp_pred), "idoverride_inputs": len(tp_over), "fingerprinted_groups": len(fp_ids), "spec_reuse_groups": {m: sum(1 for c in reuse_cases if c["mode"] == m) for m in reuse_modes}, "forced_collision_connections": 256 * len(cr_ids), "collision_branch_seen": collided,
+           "config_rand_groups": {rv: sum(1 for c in rand_cases if c["rand"] == rv) for rv in rand_variants}, "grease_keyshare_body_groups": len(ks_cases), "grease_keyshare_bodies": ks_bodies, "isgreaseid_inputs": len(tp_pred), "idoverride_inputs": len(tp_over), "fingerprinted_groups": len(fp_ids), "spec_reuse_groups": {m: sum(1 for c in reuse_cases if c["mode"] == m) for m in reuse_modes}, "forced_collision_connections": 256 * len(cr_ids), "collision_branch_seen": collided,
            "canary_events_rejected": ncan, "exhaustive": False,
            "exhaustive_part": "GetBoringGREASEValue over all 65536 seed values for each index"}
     return "model_checking", cov, [
